@@ -9,8 +9,11 @@ mod c04;
 mod c05;
 mod c10;
 mod c11;
+mod c14;
 mod olpc;
 mod c20;
+mod e2e;
+mod e2e_props;
 mod jsongen;
 mod jsongen_parse;
 mod meta;
@@ -68,6 +71,14 @@ fn main() {
         "C05" => c05::run(&cfg),
         "C10" => c10::run(&cfg),
         "C11" => c11::run(&cfg),
+        "C01" => e2e_props::run(&cfg, "C01"),
+        "C02" => e2e_props::run(&cfg, "C02"),
+        "C06" => e2e_props::run(&cfg, "C06"),
+        "C07" => e2e_props::run(&cfg, "C07"),
+        "C08" => e2e_props::run(&cfg, "C08"),
+        "C13" => e2e_props::run(&cfg, "C13"),
+        "C15" => e2e_props::run(&cfg, "C15"),
+        "C14" => c14::run(&cfg),
         "C20" => c20::run(&cfg),
         p => {
             eprintln!("no generator for {}", p);
